@@ -158,3 +158,15 @@ Theorem C18_generate_error_not_located_refuted :
     /\ locations_of (s "/w/schema.graphql") out = [] /\ locations_of (s "/w/schema.graphql") err = [].
 Proof. exact generate_error_not_located_refuted. Qed.
 Print Assumptions C18_generate_error_not_located_refuted.
+
+(** every structured diagnostic of the json document names a file of the file store, labelled with the
+    stage kind of a recorded error and carrying that error's line and column *)
+Theorem C18_json_diagnostics_name_store_files : forall p code out err w,
+  run p = Exit code out err w -> pj_format p = Json ->
+  exists t ds, parse_json out = Some t /\ json_diags t = Some ds
+    /\ forall d, In d ds ->
+         exists f k e pos, In f (snd (run_cli_impl p)) /\ f_path f = d_path d
+                           /\ In (k, e) (st_check (snd (fst (run_cli_impl p)))) /\ d_kind d = Some k
+                           /\ e_pos e = Some pos /\ d_line d = u32 (p_line pos) /\ d_col d = u32 (p_col pos).
+Proof. exact json_diagnostics_name_store_files. Qed.
+Print Assumptions C18_json_diagnostics_name_store_files.
